@@ -47,6 +47,9 @@ pub struct Case {
 }
 
 /// Statement frames in which no number of magnitude >= 127 is a legal operand.
+/// The well-formed instruction wrapped in quotes or brackets: a string literal or junk, not an
+/// instruction.
+pub const WRAPS: &[(&str, &str)] = &[("\"", "\""), ("'", "'"), ("(", ")"), ("[", "]"), ("<", ">"), ("`", "`"), ("\"", ""), ("", "\""), ("{", "}"), ("\" ", " \"")];
 pub const EDGE_FRAMES: &[&str] = &["add r0 r0 {}", "not r1 {}", "ret {}", "{}", "{} add r0 r0 r0", "add {} r0 r0", "ldr r0 r0 {}", "jmp {}", "and r0 r0 r0 {}", "push {}", "{good} {}"];
 
 pub const MALFORMED: &[&str] = &[
@@ -109,7 +112,7 @@ pub fn judge_case(c: &Case) -> Obs {
         Some(i) => {
             // a text from the fixed list, or the well-formed instruction with one surplus token
             // after it / one foreign token before it ("not exactly one well-formed instruction")
-            let k = (i as usize * (MALFORMED.len() + SURPLUS.len() + PREFIXES.len())) >> 16;
+            let k = (i as usize * (MALFORMED.len() + SURPLUS.len() + PREFIXES.len() + WRAPS.len())) >> 16;
             let good = crate::refdbg::stmt_text(&stmt);
             Cmd::EvalText(if let Some(j) = c.edge {
                 // (#65535 / xFFFF / 0xffff are left out: whether a 16-bit pattern whose two's-complement
@@ -121,8 +124,11 @@ pub fn judge_case(c: &Case) -> Obs {
                 MALFORMED[k].to_string()
             } else if k < MALFORMED.len() + SURPLUS.len() {
                 format!("{good} {}", SURPLUS[k - MALFORMED.len()])
-            } else {
+            } else if k < MALFORMED.len() + SURPLUS.len() + PREFIXES.len() {
                 format!("{} {good}", PREFIXES[k - MALFORMED.len() - SURPLUS.len()])
+            } else {
+                let (a, b) = WRAPS[k - MALFORMED.len() - SURPLUS.len() - PREFIXES.len()];
+                format!("{a}{good}{b}")
             })
         }
         None => Cmd::Eval(stmt.clone()),
@@ -309,7 +315,7 @@ impl Prop for C15 {
     }
     fn rule(&self) -> &'static str {
         "Sessions `step into k; goto <code address>; move ... (set up registers / memory); eval <X>; move r3 x1234; exit` on ProgGen programs, under both feature settings: X is every register / immediate / base+offset instruction form, label operands (LD, LDI, LEA, ST, STI, JSR, CALL) defined before and after the current PC, stack instructions, output traps, \
-         the off-limits forms (BR*, RTI, HALT, unknown trap vectors), a third of the label-free instructions written with the separators the assembler treats as blanks (commas, tabs, runs of blanks, free-standing colons - also before the mnemonic and after the last operand) and in mixed case, once lace's own assembler has confirmed that the text still assembles to that one instruction, or a malformed text: one of ~100 fixed ones (missing, surplus and wrong-kind operands, two instructions, directives, garbage, multi-byte characters, unknown labels, out-of-range literals), or a number at the limit of an integer width (2^7..2^128, -1/0/+1, bare / zero-padded / signed / under every literal prefix) in one of 11 operand frames where no such number is legal, or the generated well-formed instruction followed by one surplus token of every kind (directives incl. .end, registers, literals, labels, strings, mnemonics, junk) or preceded by a foreign token. \
+         the off-limits forms (BR*, RTI, HALT, unknown trap vectors), a third of the label-free instructions written with the separators the assembler treats as blanks (commas, tabs, runs of blanks, free-standing colons - also before the mnemonic and after the last operand) and in mixed case, once lace's own assembler has confirmed that the text still assembles to that one instruction, or a malformed text: one of ~100 fixed ones (missing, surplus and wrong-kind operands, two instructions, directives, garbage, multi-byte characters, unknown labels, out-of-range literals), or a number at the limit of an integer width (2^7..2^128, -1/0/+1, bare / zero-padded / signed / under every literal prefix) in one of 11 operand frames where no such number is legal, or the generated well-formed instruction followed by one surplus token of every kind (directives incl. .end, registers, literals, labels, strings, mnemonics, junk) or preceded by a foreign token, or wrapped in quotes or brackets (`\"add r1 r1 #5\"` is a string literal, not an instruction). \
          Oracle: allowed => the state equals RefVM executing, at the current PC, the encoding whose PC-relative field makes the effective address the label's address (registers/PC/CC after every command, full memory at the end, output); PC changes only for jumps; off-limits or malformed => nothing changes; in every case the session goes on (the following `move r3 x1234` takes effect and `exit` ends it). The link value of JSR/JSRR and the word pushed by CALL are masked; literal PC offsets are not generated. \
          One case in six is run once more in the normal (non-minimal) output mode - tables, colours, errors rendered in full: it must end the same way, after the same number of instructions, with the same final machine. Non-trivial: the text is refused / malformed, or PC != origin and the instruction has a label operand or writes memory. Distinct = hash(source, script)."
     }
